@@ -678,6 +678,11 @@ def decode_from_hdf5(value: Any) -> Any:
             return {}
         return value
 
+    if isinstance(value, np.generic):
+        # h5py returns NumPy scalars for scalar datasets; return Python
+        # scalars so that settings do not change array promotion on reload
+        return value.item()
+
     if isinstance(value, np.ndarray):
         # Try to collapse 0-D arrays into scalars
         if value.shape == ():
